@@ -227,6 +227,42 @@ def plan_C04(w):
     return gossip_family(w, "C04", c04_corrupt, "first and last event of a delivered block swapped")
 
 
+def c03_corrupt(d):
+    # an instance reports another round for one event
+    if d.get("a") == "Instance" and not d["x"]["subset"] and d["x"]["batch"] == 1 and d["o"]["vals"]:
+        d["o"]["vals"][-1]["r"] += 1
+        return True
+    return False
+
+
+def plan_C03(w):
+    q = Q(w)
+    known = vlib.load_known()
+    run_mc(w, [("hg1", "MC_hg1.cfg", 4, 300), ("hg2q", "MC_hg2q.cfg", 8, 600)] if q else
+              [("hg1", "MC_hg1.cfg", 4, 300), ("hg2t", "MC_hg2t.cfg", 14, 1500)])
+    if q:
+        kinds = [("ordA", dict(traces=4, n=0, steps=70)), ("ordB", dict(traces=2, n=4, steps=110))]
+    else:
+        kinds = [("ord%d" % i, dict(traces=6, n=0, steps=160, arg="thorough")) for i in range(4)] + \
+                [("ordN4", dict(traces=4, n=4, steps=260, arg="thorough")), ("ordN7", dict(traces=2, n=7, steps=300, arg="thorough"))]
+    traces, sums = drive_all(w, gossip_specs(w, kinds), mode="orders")
+    g = [("gsp", dict(traces=3 if q else 10, n=0, steps=100 if q else 220, sched="mix"))]
+    t2, s2 = drive_all(w, gossip_specs(w, g))
+    tvs = w.validate_many(traces + t2, par=6)
+    violations, known_hits, drift = judge(w, "C03", tvs, known)
+    st = None
+    if not violations:
+        st = selftest(w, "C03", first_segment(traces[0], os.path.join(w.dir, "seg.ndjson")), c03_corrupt,
+                      "one instance's round of one event increased by one")
+    inst = sum(s.get("extra", {}).get("instances", 0) for s in sums)
+    uns = sum(s.get("extra", {}).get("unsupported_configurations", 0) for s in sums)
+    extra = {"selftest": st, "instances_compared": inst, "unsupported_configurations_skipped": uns,
+             "variants": "random topological orders, reverse-creator-major, one-creator-late; consensus passes batched every 2/7/25 inserts and once at the end; Badger with caches |DAG|+50, 2|DAG|, 5000 and 60; in-memory with cache |DAG|+10; downward-closed prefixes; reference re-executed by the TLA+ specification"}
+    return conclude(w, "C03", sums + s2, violations, known_hits, drift, extra=extra,
+                    assumptions=["an instance that returns an error at a small cache is an unsupported configuration, not a violation; only a differing result is",
+                                 "fame tables are compared on the set of famous witnesses and on witnesses decided in both instances (a late witness may stay undecided in one order and be decided not-famous in another; no output depends on it)"])
+
+
 def c18_corrupt(d):
     if d.get("a") == "Sync":
         for b in d["o"].get("blocks", []):
@@ -291,6 +327,7 @@ def plan_C19(w):
 
 
 PLANS = {
+    "C03": plan_C03,
     "C18": plan_C18,
     "C19": plan_C19,
     "C01": plan_C01,
